@@ -197,12 +197,17 @@ func main() {
 	facts := flag.String("facts", "", "write the facts table (registries, constants) as JSON to this file and exit")
 	dict := flag.String("dict", "", "dictionary.json written by tools/extract (literals of the current source)")
 	dictBase := flag.String("dict-base", "", "dictionary of the pinned tree (committed): literals not in it are drawn preferentially")
+	c11child := flag.Int64("c11child", -1, "internal: child process of the C11 first-use-order suite")
 	flag.IntVar(&maxWall, "maxwall", 0, "wall-clock limit of this run in seconds (0: none)")
 	flag.Parse()
 	if *dict != "" {
 		loadDict(*dict, *dictBase)
 	}
 
+	if *c11child >= 0 {
+		c11FirstUseChild(*c11child)
+		return
+	}
 	if *facts != "" {
 		if err := writeFacts(*facts); err != nil {
 			fmt.Fprintln(os.Stderr, err)
